@@ -514,6 +514,11 @@ class BaseCurve(Intface_BaseCurve):
         if newknotvector == self.knotvector:
             return
         if self.ctrlpoints is None:
+            if self.weights is not None:
+                denom = self.__class__(self.knotvector, self.weights)
+                denom.update(newknotvector, tolerance, nodes)
+                temp_curve = self.__class__(newknotvector, None, denom.ctrlpoints)
+                self.__weights = temp_curve.weights
             self.__knotvector = newknotvector
             return
         if self.knotvector.limits != newknotvector.limits:
